@@ -186,4 +186,4 @@ class Report:
         evdir = os.environ.get("PEST_EVIDENCE_DIR") or os.path.join(VERIF, "evidence")
         os.makedirs(evdir, exist_ok=True)
         with open(os.path.join(evdir, "%s.json" % self.prop), "w") as fh:
-            json.dump(ev, fh, indent=1)
+            json.dump(ev, fh, indent=1, default=lambda o: sorted(o, key=str) if isinstance(o, (set, frozenset)) else str(o))
